@@ -268,12 +268,29 @@ partial def mainLoop (isolate : Bool) (h out : IO.FS.Stream) (st : St) (pending 
   if isolate && line.startsWith "begin " && line.utf8ByteSize > bigCase then
     let (lines, next) ← collectCase h #[line]
     out.flush
-    let child ← IO.Process.spawn
-      { cmd := (← IO.appPath).toString, args := #["--inline"], stdin := .piped, stdout := .inherit, stderr := .inherit }
-    let (cin, child) ← child.takeStdin
-    feed cin lines
-    let rc ← child.wait
-    if rc != 0 then throw (IO.userError s!"child driver exited {rc}")
+    let exe := (← IO.appPath).toString
+    let spawned ← try
+        let c ← IO.Process.spawn
+          { cmd := exe, args := #["--inline"], stdin := .piped, stdout := .inherit, stderr := .null }
+        pure (some c)
+      catch _ => pure none
+    -- `done = false`: no child ran (spawn failed, or the exec inside the forked child failed: exit
+    -- code 255 before any output) — answer here instead (slower, same answers)
+    let done ← match spawned with
+      | some child => do
+        let (cin, child) ← child.takeStdin
+        try feed cin lines catch _ => pure ()
+        let rc ← child.wait
+        if rc == 255 then pure false
+        else if rc != 0 then throw (IO.userError s!"child driver exited {rc}")
+        else pure true
+      | none => pure false
+    if !done then
+      let mut s : St := {}
+      for l in lines do
+        let (s', r) := handle s (tokens l)
+        out.putStrLn r
+        s := s'
     mainLoop isolate h out {} next
   else
     let (s', r) := handle st (tokens line)
